@@ -31,11 +31,11 @@ def gen_ops(rng, nbytes, role, B, style=None):
         elif r < 0.55:
             ops.append([1, rng.choice([0, 1, 5, 8, B, 10 ** 6, rng.randrange(1, 2 * B)]), rng.choice([0, 1, 2, 7, 100, 1000, rng.randrange(0, 50)])])
         elif r < 0.75:
-            ops.append([2, rng.choice([1, 3, 10, 10 ** 6, rng.randrange(0, 40)])])
+            ops.append([2, rng.choice([1, 3, 10, 10 ** 6, 2 ** 64 - 1, rng.randrange(0, 40)])])        # (usize::MAX: 'everything')
         elif r < 0.85:
             ops.append([3])
         elif r < 0.93:
-            ops.append([4, rng.choice([1, 8, 16, 10 ** 6, rng.randrange(0, 120)])])
+            ops.append([4, rng.choice([1, 8, 16, 10 ** 6, 2 ** 64 - 1, rng.randrange(0, 120)])])
         else:
             if cur + 1 < len(streams) and rng.random() < 0.7:
                 cur += 1
